@@ -14,6 +14,8 @@ pub enum Kind {
     Func(usize),
     Inst(Option<String>, Vec<(String, Kind)>),
     Type(Option<String>, Vec<(String, Kind)>),
+    /// an interface declared in the document (only in the generator's bookkeeping, never in a library)
+    IfaceTy(Option<String>, Vec<(String, Kind)>),
 }
 
 impl Kind {
@@ -42,7 +44,7 @@ impl Kind {
                 v.sort();
                 format!("inst{{{}}}", v.join(","))
             }
-            Kind::Type(..) => "type".into(),
+            Kind::Type(..) | Kind::IfaceTy(..) => "type".into(),
         }
     }
     pub fn tokens(&self, out: &mut Vec<String>) {
@@ -51,6 +53,7 @@ impl Kind {
                 out.push("F".into());
                 out.push(n.to_string());
             }
+            Kind::IfaceTy(..) => unreachable!("not a library kind"),
             Kind::Inst(id, es) | Kind::Type(id, es) => {
                 out.push(if matches!(self, Kind::Inst(..)) { "I" } else { "T" }.into());
                 out.push(id.clone().unwrap_or_default());
@@ -126,6 +129,7 @@ pub enum ImportTy {
     Path(String, Option<String>, Vec<String>),
     Func(usize),
     Iface(Vec<(String, usize)>),
+    Ident(String),
 }
 
 #[derive(Clone, Debug)]
@@ -140,6 +144,8 @@ pub enum Stmt {
     Import(String, Option<String>, ImportTy),
     Let(String, Expr),
     Export(Expr, ExportOpt),
+    /// `interface id { name: func(…); … }`
+    Iface(String, Vec<(String, usize)>),
 }
 
 #[derive(Clone, Debug)]
@@ -305,8 +311,16 @@ impl Program {
                             }
                             out.push_str(" }");
                         }
+                        ImportTy::Ident(x) => out.push_str(x),
                     }
                     out.push_str(";\n");
+                }
+                Stmt::Iface(id, fs) => {
+                    write!(out, "interface {id} {{").unwrap();
+                    for (n, sig) in fs {
+                        write!(out, " {n}: {};", func_ty_text(*sig)).unwrap();
+                    }
+                    out.push_str(" }\n");
                 }
                 Stmt::Let(id, e) => {
                     write!(out, "let {id} = ").unwrap();
@@ -356,6 +370,19 @@ impl Program {
                                 out.push(s.to_string());
                             }
                         }
+                        ImportTy::Ident(x) => {
+                            out.push("ident".into());
+                            out.push(x.clone());
+                        }
+                    }
+                }
+                Stmt::Iface(id, fs) => {
+                    out.push("ifc".into());
+                    out.push(id.clone());
+                    out.push(fs.len().to_string());
+                    for (n, s) in fs {
+                        out.push(n.clone());
+                        out.push(s.to_string());
                     }
                 }
                 Stmt::Let(id, e) => {
@@ -499,9 +526,20 @@ impl<'a> Toks<'a> {
                             }
                             ImportTy::Iface(fs)
                         }
+                        "ident" => ImportTy::Ident(self.next()?.to_string()),
                         _ => return None,
                     };
                     Stmt::Import(id, as_, ty)
+                }
+                "ifc" => {
+                    let id = self.next()?.to_string();
+                    let k = self.num()?;
+                    let mut fs = Vec::new();
+                    for _ in 0..k {
+                        let n = self.next()?.to_string();
+                        fs.push((n, self.num()?));
+                    }
+                    Stmt::Iface(id, fs)
                 }
                 "let" => {
                     let id = self.next()?.to_string();
@@ -547,6 +585,7 @@ fn wat_type(k: &Kind) -> String {
             s.push(')');
             s
         }
+        Kind::IfaceTy(..) => unreachable!("not a library kind"),
         Kind::Type(id, es) => {
             // only used at the top level of a package's exports
             format!("(component (export \"{}\" {}))", id.clone().unwrap_or_default(), wat_type(&Kind::Inst(None, es.clone())))
@@ -575,7 +614,7 @@ fn realise(k: &Kind, counter: &mut usize, out: &mut String) -> (&'static str, St
             writeln!(out, "  (instance {id} {})", parts.join(" ")).unwrap();
             ("instance", id)
         }
-        Kind::Type(..) => {
+        Kind::Type(..) | Kind::IfaceTy(..) => {
             writeln!(out, "  (type {id} {})", wat_type(k)).unwrap();
             ("type", id)
         }
